@@ -8,6 +8,7 @@ Oracle : per specification, the residues whose (chain, resname, resid) agree wit
          of the requested block (plus the modification's atoms) and one residue name.
 """
 import itertools
+import os
 
 from .. import harness, util
 from ..gen import atomistic
@@ -432,14 +433,69 @@ def repairable(mols, specs, marks):
     return True
 
 
+# ------------------------------------------------------------------ requests given on the command line
+def check_cli_requests(b, seed):
+    """martinize2 run twice on villin: with one -modify request (and one that matches nothing), and with the same requests plus
+    -nt (neutral termini, which adds its own terminal requests).  The residue named by the request must come out modified in both
+    runs (same particle types and charges as each other), and the request that matches nothing must be reported in both."""
+    import subprocess
+    import sys
+    import tempfile
+    import shutil
+    from ..oracles import itpread
+    pdb = util.test_data_path('integration_tests/tier-1/villin/aa.pdb')
+    target, mod = [('A-ASP44', 'ASP-HD2'), ('A-GLU45', 'GLU-HE1'), ('A-ASP46', 'ASP-HD2'), ('A-GLU72', 'GLU-HE2')][seed % 4]
+    resid = int(target[5:])
+    work = tempfile.mkdtemp(prefix='c19cli-')
+    outs = {}
+    try:
+        for label, extra in (('plain', []), ('with-nt', ['-nt'])):
+            d = os.path.join(work, label)
+            os.makedirs(d)
+            cmd = [sys.executable, os.path.join(util.REPO, 'bin', 'martinize2'), '-f', pdb, '-x', 'cg.pdb', '-o', 'topol.top', '-ff', 'martini3001',
+                   '-maxwarn', '100', '-modify', '%s:%s' % (target, mod), '-modify', 'A-ASP999:ASP-HD2'] + extra
+            r = subprocess.run(cmd, cwd=d, env=dict(os.environ, PYTHONPATH=util.REPO), capture_output=True, text=True, timeout=600)
+            b.hits += 1
+            if r.returncode != 0:
+                return ('cli/run-failed', {'run': label, 'stderr': r.stderr[-600:]})
+            with open(os.path.join(d, 'molecule_0.itp')) as f:
+                mt = itpread.parse(f.read())['moleculetypes'][0]
+            rows = [itpread.atom_row(x) for x in mt['atoms']]
+            outs[label] = {'beads': [(x['atom'], x['type'], x['charge']) for x in rows if x['resnr'] == str(resid - 40)],
+                           'reported': any('ASP999' in l and 'not found' in l for l in r.stderr.split('\n'))}
+        if not outs['plain']['reported'] or not outs['with-nt']['reported']:
+            return ('cli/unmatched-request-not-reported', {'request': 'A-ASP999:ASP-HD2', 'reported': {k: v['reported'] for k, v in outs.items()}})
+        if outs['plain']['beads'] != outs['with-nt']['beads'] or not outs['plain']['beads']:
+            return ('cli/request-lost-next-to-other-options', {'request': '%s:%s' % (target, mod), 'particles_with_the_request_alone': outs['plain']['beads'],
+                                                              'particles_with_-nt_as_well': outs['with-nt']['beads']})
+        # the modification has an effect at all: the side chain particle differs from the unmodified run's charged one
+        if all(c in ('-1', '-1.0') for _, _, c in outs['plain']['beads'][1:2]):
+            return ('cli/request-without-effect', {'request': '%s:%s' % (target, mod), 'particles': outs['plain']['beads']})
+        return None
+    finally:
+        shutil.rmtree(work, ignore_errors=True)
+
+
 def cases(tier, seed):
     nb, per = (32, 60) if tier == 'quick' else (128, 600)
-    return [{'seed': seed, 'batch': b, 'n': per} for b in range(nb)]
+    out = [{'seed': seed, 'batch': b, 'n': per} for b in range(nb)]
+    # requests given on the command line, next to an option that adds requests of its own (2 pipeline runs each)
+    out += [{'seed': seed, 'batch': 10000 + i, 'n': 0, 'cli': seed + i} for i in range(1 if tier == 'quick' else 4)]
+    return out
 
 
 def run_case(params):
     rnd = harness.rng('C19', params['seed'], params['batch'])
     b = harness.Batch()
+    if 'cli' in params:
+        b.total += 1
+        p = check_cli_requests(b, params['cli'])
+        if p:
+            b.violation(p[0], 'request given on the command line does not reach the residue it names (%s)' % p[0], {'detail': p[1]})
+        else:
+            b.feat('cli_request_pairs')
+            b.nontrivial(['cli', params['cli']], {'cli_pair': params['cli']})
+        return b.result()
     for j in range(params['n']):
         b.total += 1
         mols = gen_system(rnd)
